@@ -274,7 +274,6 @@ func VerifH_C19_DetachAndConcat() {
 	vAssert("concat-ok", err == nil)
 	got, ok := vFSReadFile(outPath)
 	vAssert("concat-output", ok)
-	vRegion("concat-version-2", version == "2")
 	blks, roots, clean := vScanBlocks(got)
 	vAssert("concat-scans-clean", clean)
 	// de-duplication is not part of concat: the block sequences are appended as they are; the
